@@ -69,7 +69,13 @@ func aaLog(logger string, path string, profile string) error {
 	aaLogs := logs.New(file, profile)
 	if rules {
 		profiles := aaLogs.ParseToProfiles()
-		for _, p := range profiles {
+		names := make([]string, 0, len(profiles))
+		for name := range profiles {
+			names = append(names, name)
+		}
+		slices.Sort(names) // print the profiles in a reproducible order
+		for _, name := range names {
+			p := profiles[name]
 			p.Merge(nil)
 			p.Sort()
 			p.Format()
